@@ -687,6 +687,11 @@ STD_ACCESSORS = {
     "by_ref": None, "split_at_mut": "[]", "split_first_mut": "[]",
     "split_last_mut": "[]", "chunks_mut": "[]",
 }
+# accessors that only compute an address (place projection): they do not read what they point to
+STD_ADDRESS_ONLY = {
+    "index", "index_mut", "deref", "deref_mut", "as_ref", "as_mut", "as_slice", "as_mut_slice", "borrow", "borrow_mut",
+    "iter", "iter_mut", "by_ref", "into_iter", "split_at_mut", "chunks_mut", "first_mut", "last_mut", "get_mut",
+}
 # std functions that neither write through nor retain their reference arguments
 STD_PURE = {
     "len", "is_empty", "eq", "ne", "cmp", "partial_cmp", "lt", "le", "gt", "ge",
@@ -1031,7 +1036,7 @@ class Effects:
                     continue
                 ty = a.get("ty") if a["k"] != "const" else a["ty"]["s"]
                 tys = ty if isinstance(ty, str) else (ty or {}).get("s", "")
-                if not (std and dname in STD_WRITE_ONLY and not is_ro_ty(tys)):
+                if not (std and dname in STD_WRITE_ONLY and not is_ro_ty(tys)) and not (std and dname in STD_ADDRESS_ONLY):
                     cs.R |= {plain(p) for p in av}
                 if accessor:
                     el = STD_ACCESSORS[dname]
